@@ -14,4 +14,17 @@ timeout 3000 make -f Makefile.coq -j12
 cd ../harness
 cp "${VERIF_REPO:-/repo}/go.sum" go.sum
 go build -tags verif -o ../.build/ ./cmd/... 
+cd ..
+# whole-tree lint: no Admitted/admit/Axiom/Parameter/... anywhere in the development
+python3 - <<'PY'
+import sys, os
+sys.path.insert(0, "vlib")
+import engine
+class C: pass
+c = C(); c.coqdir = os.path.join(os.getcwd(), "coq")
+bad = engine.lint(c)
+if bad:
+    print("LINT: forbidden constructs:", *bad, sep="\n  ")
+    sys.exit(1)
+PY
 echo "setup ok"
